@@ -8,18 +8,26 @@ from vlib import core
 
 META = {
     "level": "model_checking",
-    "level_text": "AdtLayout.tla states the ADT format (chunk framing over ChunkFraming.tla, MHDR table relative to the MHDR "
-                  "payload, MCIN index, MCNK container with its 128-byte header and ofs_* fields, which version may carry which "
-                  "chunk, version detection) and models serializer.rs as a state machine (one action per emitted chunk, two-pass "
-                  "back-patching, an independent walker, discovery-based parse, from_root_adt, rebuild) with the code's known "
-                  "departures as named deviations. TLC checks the layout invariants exhaustively for every subset of optional "
-                  "chunks x 6 versions x sub-chunk subsets x 2 rebuild rounds (stage A, code and ideal configuration). TLC "
-                  "enumerates tile shapes (stage B); the driver builds them through the public AdtBuilder API, and an independent "
-                  "chunk walker reads every produced file (rounds 0..4); TLC replays the recorded files through the format "
-                  "predicates and compares per-section content tokens (stage D).",
-    "level_note": "Trusted: the driver's 40-line walker (framing rule + field positions emitted by the spec), SHA-1 of Debug renderings "
-                  "as content tokens, TLC. Payload bytes (heights, alpha, floats) are compared only as tokens. Auto-generated minimal "
-                  "MCNKs (0 user chunks) are compared across rounds only. MH2O: 1-3 layers per chunk over the product bitmap on/off x vertex data on/off x LVF 0-3 x rectangles 8x8 / 2x3@(1,2) / 5x8@(3,0) / 1x1@(7,7).",
+    "level_text": "AdtLayout.tla states the ADT format (chunk framing over ChunkFraming.tla, MHDR offset table relative to the MHDR "
+                  "payload, MCIN (offset, size incl. header) index, MCNK container with its 128-byte header, ofs_* fields and size/count "
+                  "words, which version may carry which chunk, version detection from chunk presence) and models serializer.rs / parse / "
+                  "from_root_adt as a state machine (one action per emitted chunk, two-pass back-patching, an independent walker, "
+                  "discovery-based parse, rebuild) with the code's departures as named deviations. Stage A: TLC checks the layout, "
+                  "version-rule, parse-keeps-content and no-growth invariants exhaustively for every subset of optional chunks x 6 versions x "
+                  "sub-chunk subsets x 2 rebuild rounds (as-coded, ideal and pre-fix configurations; each repaired defect is a deviation that "
+                  "must violate its invariant). Stage B: TLC enumerates tile shapes (deterministic slices incl. the full MH2O layer product + "
+                  "seeded draws). Stage C: the driver builds them through the public AdtBuilder API and an independent chunk walker reads every "
+                  "produced file (rounds 0..4). Stage D, decided by TLC on logged integers: framing tiles the file and every MCNK payload; every "
+                  "MHDR / MCIN / MCNK ofs_* entry points at a chunk header with the named tag (and is non-zero when the chunk exists); MCIN sizes; "
+                  "MCNK size/count words; version rule; len(bytes_n) <= len(bytes_n-1); the behaviour Reset Build (File Parse Rebuild)*; and "
+                  "equality of per-section content tokens parse-vs-input (with the version rules choosing the expected token) and across rounds.",
+    "level_note": "Only observed and compared as opaque tokens (SHA-1 prefix of the Debug rendering, computed by the driver): all payload "
+                  "content - names, placements, heights, normals, layers, alpha, shadow, colours, MCLQ, MCSE, MH2O instance fields / bitmaps / "
+                  "vertex data / attributes, MFBO, MTXF, MAMP, MTXP, blend mesh. Trusted: the driver's walker (framing rule + field positions "
+                  "emitted by the spec), the projections that drop layout offsets from tokens, TLC. Auto-generated minimal MCNKs (0 user chunks) "
+                  "are compared across rounds only. Shapes are sampled (reduced product), not the full product; model bounds in stage A: 3 MCIN "
+                  "entries, 2 user MCNKs, 2 rebuild rounds. DRIFT only (never a verdict): 136-byte MCNK header, MHDR flags, index_x/index_y vs "
+                  "grid position, reference counts, detectability of the written version, length fixpoint from round 2.",
     "technique": "TLA+ layout state machine model-checked with TLC; TLC-generated shapes replayed on the real builder/serializer/parser; "
                  "trace validation of walker observations and content tokens against the format predicates",
     "design_ref": "DESIGN.md section 5, C13-C18 recipe, C14",
@@ -117,9 +125,11 @@ def run(ctx, cases_override=None):
         "tiles_through_all_4_rebuild_rounds": full,
         "evaluations": res["events"] - res["traces"],
         "distinct_nontrivial": nontrivial,
-        "rule": "distinct shapes (26 class attributes) with at least one optional list / sub-chunk / top-level chunk populated; "
-                "one evaluation = one recorded event (Build, File with full walker observation, Parse with 27 section tokens, Rebuild) "
-                "checked by TLC",
+        "rule": "distinct_nontrivial = number of distinct Reset shapes (26 class attributes) of this run in which at least one of nmdl, nwmo, "
+                "mcrf, mcal, mcsh, mclq, mccv, mcse, mclv, water, mfbo, mtxf, mamp, mtxp, bmesh is not its default (0 / false / none); "
+                "evaluations = recorded events other than Reset (Build, File with the full walker observation, Parse with 27 section tokens, "
+                "Rebuild), each judged by TLC; traces = Reset-delimited tiles; exhaustive is false: stage B is a reduced product of a ~10^10 "
+                "shape space",
         "exhaustive": False,
         "failed_conjuncts": len(bad),
     }
